@@ -150,6 +150,22 @@ static void membership(bool thorough)
             for (double s2 : W) { for (int c2 = c1; c2 < 7; ++c2) { if (R.shard.mine(item++)) { one_mf(A_MF_GAUSS2, {s1, V[c1], s2, V[c2]}, {V[c1] - s1, V[c1], V[c2], V[c2] + s2}); } } }
         }
     }
+    // extreme but legal widths: a near-crisp set (width far below 1) and a set on a huge universe; squaring the numerator and the
+    // denominator separately would under- or overflow although their ratio is ordinary
+    {
+        const bool f32 = EPS == (double)FLT_EPSILON;
+        const double tiny = f32 ? 1e-25 : 1e-170, huge = f32 ? 1e20 : 1e160;
+        for (double c0 : {0.0, 1.5})
+        {
+            if (!R.shard.mine(item++)) { continue; }
+            one_mf(A_MF_GAUSS, {tiny, c0}, {c0 - tiny, c0, c0 + tiny});
+            one_mf(A_MF_GAUSS, {huge, c0}, {c0 - huge, c0, c0 + huge});
+            one_mf(A_MF_GAUSS2, {tiny, c0, tiny, c0 + 1}, {c0 - tiny, c0, c0 + 1, c0 + 1 + tiny});
+            one_mf(A_MF_GAUSS2, {huge, c0, huge, c0 + 1}, {c0 - huge, c0, c0 + 1, c0 + 1 + huge});
+            one_mf(A_MF_GBELL, {tiny, 2, c0}, {c0 - tiny, c0, c0 + tiny});
+            one_mf(A_MF_GBELL, {huge, 2, c0}, {c0 - huge, c0, c0 + huge});
+        }
+    }
     for (double a1 : SL)
     {
         for (int c1 = 0; c1 < 7; ++c1)
@@ -275,6 +291,16 @@ static void inference(bool thorough)
 {
     uint64_t n = 0, nt = 0, item = 0;
     int G = thorough ? 81 : 41;
+    // the documented buffer size, also when the argument is a compound expression
+    if (R.shard.idx == 0)
+    {
+        for (unsigned k = 0; k < 8; ++k)
+        {
+            ++n;
+            size_t want = 2 * (k + 1) * sizeof(unsigned int) + (2 + (k + 1)) * (k + 1) * sizeof(a_real);
+            if (A_PID_FUZZY_BFUZZ(k + 1) != want || A_PID_FUZZY_BFUZZ(k + 1) != A_PID_FUZZY_BFUZZ((k + 1))) { R.viol("infer|bfuzz-macro", "A_PID_FUZZY_BFUZZ(k + 1) is not 2N indices + (2+N)N values for N = " + std::to_string(k + 1), std::to_string(k)); }
+        }
+    }
     for (const Base &B : BASES)
     {
         for (int o = 0; o < 7; ++o)
